@@ -7,9 +7,10 @@ const RULE: &str = "rule lists of 1-3 rules (full-grammar generator biased to al
 
 const ERR_RULES: [&str; 8] = ["s > [αvoice]", "a > *", "% > * / _#", "k > [+place]", "V > [-long, +overlong]", "{p, t} > {b}", "V > 1", "* > [+nasal] / a_"];
 
-pub struct Case { pub rules: Vec<String>, pub lines: Vec<String>, pub order: Vec<usize> }
+/// `split`: every rule is a rule group of its own (otherwise all rules form one group)
+pub struct Case { pub rules: Vec<String>, pub lines: Vec<String>, pub order: Vec<usize>, pub split: bool }
 
-fn gen(r: &mut Rng) -> Case {
+pub(crate) fn gen(r: &mut Rng) -> Case {
     let mut rules: Vec<String> = Vec::new();
     for _ in 0..r.range(1, 3) {
         if r.chance(1, 6) { rules.push(r.pick(&ERR_RULES).to_string()) } else { rules.push(plain(&rand_rule(r, &RuleCfg::default()))) }
@@ -26,14 +27,14 @@ fn gen(r: &mut Rng) -> Case {
     let mut order: Vec<usize> = (0..lines.len()).collect();
     r.shuffle(&mut order);
     if r.chance(1, 3) { order.truncate(r.range(1, order.len())); }
-    Case { rules, lines, order }
+    Case { rules, lines, order, split: r.chance(1, 2) }
 }
 
 fn kind_of(x: &Result<Vec<String>, Applied>) -> String { match x { Ok(v) => format!("Ok{v:?}"), Err(a) => a.tag() } }
 
 pub fn judge(rep: &mut Report, c: &Case) {
-    let g = one_group(&c.rules);
-    let cj = || json!({"rules": c.rules, "lines": c.lines, "order": c.order});
+    let g: Vec<asca::RuleGroup> = if c.split { c.rules.iter().map(|x| asca::RuleGroup::from_rules(vec![x.clone()])).collect() } else { one_group(&c.rules) };
+    let cj = || json!({"rules": c.rules, "lines": c.lines, "order": c.order, "split": c.split});
     rep.eval(1);
     // per-line runs
     let singles: Vec<Result<Vec<String>, Applied>> = c.lines.iter().map(|l| run_pub(&g, &[l.clone()], &[], &[])).collect();
@@ -96,12 +97,12 @@ pub fn judge(rep: &mut Report, c: &Case) {
 }
 
 pub fn explore(ctx: &Ctx, shard: usize, n: usize) -> Report {
-    drive::cases(ctx, shard, n, RULE, 0x11, 60_000, 3_000_000, |r, rep, _| { let c = gen(r); judge(rep, &c); })
+    drive::cases(ctx, shard, n, RULE, 0x11, 60_000, 12_000_000, |r, rep, _| { let c = gen(r); judge(rep, &c); })
 }
 
 pub fn replay(_ctx: &Ctx, case: &Value) -> Report {
     let mut rep = Report::new(RULE);
     let order: Vec<usize> = case["order"].as_array().map(|a| a.iter().map(|x| x.as_u64().unwrap_or(0) as usize).collect()).unwrap_or_default();
-    judge(&mut rep, &Case { rules: jstrs(case, "rules"), lines: jstrs(case, "lines"), order });
+    judge(&mut rep, &Case { rules: jstrs(case, "rules"), lines: jstrs(case, "lines"), order, split: case["split"].as_bool().unwrap_or(false) });
     rep
 }
